@@ -231,7 +231,11 @@ impl View {
                         Err(_) => break,
                     }
                 }
-                if intact_root {
+                // an orphan belongs to the intact tree of a model that is no longer known; if the walk ends at the root of
+                // a KNOWN model although that model does not list the element, the element was removed and merely kept
+                // a link to its former parent: that is a stale handle
+                let top_known = models.iter().any(|(_, ms)| ms.by_elem.contains_key(&top));
+                if intact_root && !top_known {
                     orphans.push(h);
                 } else {
                     detached.push(h);
